@@ -38,7 +38,10 @@ type c12Case struct {
 	TokenLookup string   `json:"token_lookup"`
 	CookieName  string   `json:"cookie_name"`
 	ContextKey  string   `json:"context_key"`
-	Reqs        []c12Req `json:"reqs"`
+	// ErrorHandler: 0 = nil; 1 = custom handler that writes its own 418 and returns nil;
+	// 2 = custom handler that returns its own 409 error
+	ErrorHandler int      `json:"error_handler,omitempty"`
+	Reqs         []c12Req `json:"reqs"`
 }
 
 func (c *c12Case) effCookie() string {
@@ -229,10 +232,10 @@ func c12Letters(s string) bool {
 
 func c12Run(ci any) Result {
 	c := ci.(*c12Case)
-	if c.TokenLength < 0 || c.TokenLength > 255 {
+	if c.TokenLength < 0 || c.TokenLength > 255 || c.ErrorHandler < 0 || c.ErrorHandler > 2 {
 		return Result{Tags: []string{"invalid-case"}}
 	}
-	ops := []string{wInt(c.TokenLength), wStr(c.TokenLookup), wStr(c.CookieName), wInt(len(c.Reqs))}
+	ops := []string{wInt(c.TokenLength), wStr(c.TokenLookup), wStr(c.CookieName), wInt(c.ErrorHandler), wInt(len(c.Reqs))}
 	tagset := map[string]bool{}
 	oracle := ""
 	fail := func(i int, msg string) {
@@ -251,12 +254,23 @@ func c12Run(ci any) Result {
 			}
 		}()
 		e = echo.New()
-		e.Use(middleware.CSRFWithConfig(middleware.CSRFConfig{
+		cfg := middleware.CSRFConfig{
 			TokenLength: uint8(c.TokenLength),
 			TokenLookup: c.TokenLookup,
 			CookieName:  c.CookieName,
 			ContextKey:  c.ContextKey,
-		}))
+		}
+		switch c.ErrorHandler {
+		case 1:
+			cfg.ErrorHandler = func(err error, ctx echo.Context) error {
+				return ctx.JSON(http.StatusTeapot, map[string]string{"message": "csrf check failed"})
+			}
+		case 2:
+			cfg.ErrorHandler = func(err error, ctx echo.Context) error {
+				return echo.NewHTTPError(http.StatusConflict, "csrf check failed")
+			}
+		}
+		e.Use(middleware.CSRFWithConfig(cfg))
 		return false
 	}()
 	if cpanic {
@@ -395,18 +409,6 @@ func c12Run(ci any) Result {
 		held := c12Held(c, &rq, b)
 		if o.ran {
 			tagset["passed"] = true
-			if o.status != http.StatusOK {
-				fail(i, fmt.Sprintf("handler ran but status %d", o.status))
-			}
-			if o.setCookie == nil {
-				fail(i, "passed without a Set-Cookie for the CSRF cookie")
-			} else if o.ctxTok == nil || *o.ctxTok != *o.setCookie {
-				fail(i, fmt.Sprintf("Set-Cookie token %q differs from the context token %v", *o.setCookie, o.ctxTok))
-			} else if reqCookie != nil && *o.setCookie != *reqCookie {
-				fail(i, fmt.Sprintf("token %q is not the request cookie's %q", *o.setCookie, *reqCookie))
-			} else if reqCookie == nil && (len(*o.setCookie) != c.effLen() || !c12Letters(*o.setCookie)) {
-				fail(i, fmt.Sprintf("fresh token %q: want %d ASCII letters", *o.setCookie, c.effLen()))
-			}
 			if !safe {
 				nontrivial = true
 				tagset["unsafe-passed"] = true
@@ -422,6 +424,18 @@ func c12Run(ci any) Result {
 					fail(i, fmt.Sprintf("unsafe %q request passed although no configured lookup location holds the cookie token %q", rq.Method, *reqCookie))
 				}
 			}
+			if o.setCookie == nil {
+				fail(i, "passed without a Set-Cookie for the CSRF cookie")
+			} else if o.ctxTok == nil || *o.ctxTok != *o.setCookie {
+				fail(i, fmt.Sprintf("Set-Cookie token %q differs from the context token %v", *o.setCookie, o.ctxTok))
+			} else if reqCookie != nil && *o.setCookie != *reqCookie {
+				fail(i, fmt.Sprintf("token %q is not the request cookie's %q", *o.setCookie, *reqCookie))
+			} else if reqCookie == nil && (len(*o.setCookie) != c.effLen() || !c12Letters(*o.setCookie)) {
+				fail(i, fmt.Sprintf("fresh token %q: want %d ASCII letters", *o.setCookie, c.effLen()))
+			}
+			if o.status != http.StatusOK {
+				fail(i, fmt.Sprintf("handler ran but status %d", o.status))
+			}
 		} else {
 			tagset["rejected"] = true
 			tagset[fmt.Sprintf("status-%d", o.status)] = true
@@ -435,6 +449,12 @@ func c12Run(ci any) Result {
 				nontrivial = true // a near miss: cookie and client token(s) present, no match
 			}
 		}
+	}
+	switch c.ErrorHandler {
+	case 1:
+		tagset["error-handler-writes-and-returns-nil"] = true
+	case 2:
+		tagset["error-handler-returns-own-error"] = true
 	}
 	var tags []string
 	for t := range tagset {
@@ -774,6 +794,9 @@ func c12Gen(r *rand.Rand, tier string) []any {
 		}
 		c.CookieName = []string{"", "_csrf", "csrf", "XSRF-TOKEN"}[r.Intn(4)]
 		c.ContextKey = []string{"", "csrf", "tok"}[r.Intn(3)]
+		if r.Intn(3) == 0 {
+			c.ErrorHandler = 1 + r.Intn(2)
+		}
 		k := 1 + r.Intn(3)
 		for j := 0; j < k; j++ {
 			c.Reqs = append(c.Reqs, c12GenReq(r, c))
@@ -861,13 +884,18 @@ func c12Shrink(ci any) []any {
 		d.ContextKey = ""
 		out = append(out, &d)
 	}
+	if c.ErrorHandler != 0 {
+		d := *c
+		d.ErrorHandler = 0
+		out = append(out, &d)
+	}
 	return out
 }
 
 func init() {
 	register(&Prop{
 		ID:     "C12",
-		Rule:   "one CSRF middleware per case (TokenLength 0/1..255 with the uint8 boundaries 203..208, 254, 255; 12 TokenLookup shapes with 1-3 sources, prefix cut, non-canonical header names; 4% ignored/failing/param/cookie sources, compared with the model only) x 1-3 requests: 27 method spellings (standard, lower/mixed case, padded, custom, empty) x cookie present/empty/absent/look-alike name/duplicated x client token exact (alone, among 3/20/21/25 values, beside wrong tokens at other sources), near miss (prefix, suffix, case change, padding, NUL, bit flip, empty), absent, at a non-configured or unparsed location, or guessed fresh token; random source = seeded byte stream per request (uniform, mostly rejected bytes, boundary bytes 200..215, whole first buffer rejected, too short); non-trivial = an unsafe request that passed, or was rejected although cookie and client tokens were present; distinct = distinct model op lines",
+		Rule:   "one CSRF middleware per case (TokenLength 0/1..255 with the uint8 boundaries 203..208, 254, 255; 12 TokenLookup shapes with 1-3 sources, prefix cut, non-canonical header names; 4% ignored/failing/param/cookie sources, compared with the model only; a third with a custom ErrorHandler that writes its own 418 and returns nil, or returns its own 409 error) x 1-3 requests: 27 method spellings (standard, lower/mixed case, padded, custom, empty) x cookie present/empty/absent/look-alike name/duplicated x client token exact (alone, among 3/20/21/25 values, beside wrong tokens at other sources), near miss (prefix, suffix, case change, padding, NUL, bit flip, empty), absent, at a non-configured or unparsed location, or guessed fresh token; random source = seeded byte stream per request (uniform, mostly rejected bytes, boundary bytes 200..215, whole first buffer rejected, too short); non-trivial = an unsafe request that passed, or was rejected although cookie and client tokens were present; distinct = distinct model op lines",
 		New:    func() any { return &c12Case{} },
 		Gen:    c12Gen,
 		Run:    c12RunScoped,
